@@ -337,6 +337,9 @@ func (e *Engine) callFn(st *State, x *ssa.Call, fn *ssa.Function, bind []Value, 
 	}
 	if strings.HasPrefix(name, "(*log/slog.Logger).") {
 		e.ModelsUsed["log/slog.Logger.* (no-op)"] = true
+		if short == "Enabled" { // the default logger discards everything (C27); debug-only summaries are skipped
+			setRes(st, x, e.ts.Bool(false))
+		}
 		return true
 	}
 
